@@ -19,6 +19,7 @@ BLK = [R + "umem_alloc.c", R + "ubuf_block_mem.c", R + "ubuf_mem_common.c"]
 VS = [E + "vsched.c"]
 HARNESSES = {
     "c07_lin": {"src": [H + "c07_lin.c"] + VS},
+    "c13_pump": {"src": [H + "c13_pump.c", E + "vmock_upump.c", R + "upump_common.c", "@REPO@/lib/upump-ev/upump_ev.c"], "libs": ["-lev"]},
     "c11_clock": {"src": [H + "c11_clock.c", R + "umem_alloc.c", R + "udict_inline.c", R + "uref_std.c"]},
     "c02_cow": {"src": [H + "c02_cow.c", R + "ubuf_block_mem.c", R + "ubuf_mem_common.c", R + "ubuf_mem.c", R + "ubuf_pic_mem.c", R + "ubuf_pic_common.c",
                         R + "ubuf_pic.c", R + "ubuf_sound_mem.c", R + "ubuf_sound_common.c", R + "uref_pic_flow.c", R + "udict_inline.c",
@@ -245,4 +246,25 @@ CHECKS["C11"] = {
     "rule": "BFS, key = the uref clock fields (flags, 3 dates, 3 delays); non-trivial = states with at least one date and one delay set",
     "bounds": {"quick": "3 domains depth 4; 2 domains depth 5 (sharded by first op over 14 jobs each)", "thorough": "3 domains depth 5; 2 domains depth 6"},
     "assumptions": DEFAULT_ASSUME + ["depth-4/5 jobs are sharded by first operation; states are deduplicated within a shard only"],
+}
+
+def _c13_jobs(tier):
+    jobs = []
+    for ty in ("idler", "timer", "fd"):
+        for cb in ("none", "stop", "block", "free", "start"):
+            jobs.append(("c13_pump", ["--type", ty, "--cb", cb, "--backend", "mock", "--depth", 40, "--deadline", 70]))
+    for cb in ("none", "stop", "block", "free"):
+        jobs.append(("c13_pump", ["--type", "idler", "--cb", cb, "--backend", "ev", "--depth", 40, "--deadline", 70]))
+    return jobs
+
+CHECKS["C13"] = {
+    "engine": "seqx", "design_ref": "DESIGN.md section 3 C13",
+    "technique": "explicit-state BFS to closure over start/stop/restart/set_status/blocker alloc+free/dispatch/free on a pump of a mock event loop built on the real upump_common.c, vs a 3-variable reference automaton; conformance replay on real upump_ev/libev",
+    "level_text": "The full reachable state space (closure, no depth bound) of one pump with up to 3 blockers, for idler / timer / descriptor pumps and 5 callback behaviours (nothing, stop itself, block itself, free itself, start again): after every call the back-end's active flag must equal started && no blocker && !freed, back-end calls must be well-formed (no start while active, no stop while inactive, matching status), freeing must notify every outstanding blocker exactly once, callbacks only from dispatch. The same alphabet is replayed on a real upump_ev idler with ev_run(EVRUN_NOWAIT) and what libev invokes is compared with the automaton.",
+    "level_note": "Blocker callbacks follow upipe_helper_input's contract (unlink + free). upump_restart is used on timer pumps only (as documented). One-shot timer expiry inside libev is not modelled by the mock.",
+    "jobs": {"quick": _c13_jobs("quick"), "thorough": _c13_jobs("thorough")},
+    "rule": "BFS to closure, key = automaton variables + upump_common fields + back-end flags; non-trivial = states with a blocker held or the pump freed",
+    "bounds": {"quick": "closure (no depth bound): 3 pump types x 5 callback behaviours on the mock back-end, 4 behaviours on real libev; <= 3 blockers",
+               "thorough": "same (the space is finite and fully explored)"},
+    "assumptions": DEFAULT_ASSUME,
 }
